@@ -675,10 +675,23 @@ Definition compute_partition (t : ety) (m : metric) (centroids vector : list (op
    sort_to_indices (NaN last; tie order unspecified).  The model returns the distance list; the
    checker [chk_find] verifies the recorded (index, distance) pairs against it. *)
 Definition find_partitions_dists (t : ety) (m : metric) (centroids query : list (option Z)) : outcome (list xval) :=
-  match m with
-  | ML2 => batch_nan (l2 t) query centroids (length query)
-  | MDot => batch_nan (dot_distance t) query centroids (length query)
-  | _ => Panic
+  match t, m with
+  | U8, MHamming => batch_nan hamming query centroids (length query)   (* kmeans_find_partitions_binary *)
+  | U8, _ => Panic
+  | _, ML2 => batch_nan (l2 t) query centroids (length query)
+  | _, MDot => batch_nan (dot_distance t) query centroids (length query)
+  | _, _ => Panic
+  end.
+
+(* compute_partitions::<T, KMeansAlgoFloat<T>>: (membership, losses.iter().sum::<f64>()) where
+   losses[c] accumulates `dist as f64` of the vectors assigned to c *)
+Definition partitions_loss (t : ety) (m : metric) (centroids data : list (option Z)) (dim : nat)
+  : outcome (list (option N) * Z) :=
+  match membership_float t m centroids data dim None with
+  | Ok r => Ok (map (option_map fst) r,
+                zsum (map (fun o : option (N * Z) => match o with Some (_, d) => d | None => 0 end) r))
+  | Err => Err
+  | Panic => Panic
   end.
 
 Fixpoint insert_sorted (k : Z) (l : list Z) : list Z :=
@@ -990,6 +1003,12 @@ Definition chk_parts (i : aty * aty * metric * nat * nat * list (option Z) * lis
 Definition chk_part1 (i : ety * metric * list (option Z) * list (option Z)) (o : outcome (option N)) : bool :=
   let '(t, m, c, v) := i in
   member_dom t m c v (length v) && outcome_eqb on_eqb (compute_partition t m c v) o.
+
+(* (type, metric, centroids, data, dim) -> compute_partitions: (membership, total loss) *)
+Definition chk_loss (i : ety * metric * list (option Z) * list (option Z) * nat) (o : outcome (list (option N) * Z)) : bool :=
+  let '(t, m, c, d, dim) := i in
+  member_dom t m c d dim &&
+  outcome_eqb (pair_eqb (list_eqb on_eqb) Z.eqb) (partitions_loss t m c d dim) o.
 
 (* kmeans_find_partitions: recorded (index, distance) pairs.  Tie order of sort_to_indices is
    unspecified, so the check is relational: the recorded distances are exactly the nprobes smallest
